@@ -178,7 +178,8 @@ def show(at):
 
 def _opaque_atom(a):
     if isinstance(a, tuple):
-        if a and a[0] in ('?', 'opq'): return True
+        if a and a[0] == '?': return True
+        if len(a) > 1 and a[0] == 'opq' and a[1] == '?': return True
         return any(_opaque_atom(x) for x in a if isinstance(x, tuple))
     return False
 
@@ -299,7 +300,8 @@ def has_opaque(v) -> bool:
     k = tkey(v)
     def go(x):
         if isinstance(x, tuple):
-            if x and x[0] in ('?', 'opq'): return True
+            if x and x[0] == '?': return True
+            if len(x) > 1 and x[0] == 'opq' and x[1] == '?': return True
             return any(go(y) for y in x)
         return False
     return go(k)
@@ -333,11 +335,15 @@ class Evaluator:
         s.mutations: list = []
         s.opaque_fns: set = set()          # {(module short, function name)} kept as uninterpreted functions
         s.assume_finite = True             # np.isfinite(x) folds to True (recorded by the rules as an assumption)
+        s.raises: list = []                # pruned raise branches: guard, polarity, exception name, path condition
+        s._pc: list = []
         s._undecided = 0                   # nesting depth of undecided guards (facts are learnt only at depth 0)
 
-    def learn(s, g, polarity: bool):
+    def learn(s, g, polarity: bool, exc=None, top=True):
         """a raising branch was pruned: its guard has the given truth value on every non-raising path"""
-        s.assumed.append((g, polarity))
+        if top:
+            s.assumed.append((g, polarity))
+            s.raises.append({'guard': g, 'polarity': polarity, 'exc': exc, 'pc': tuple(s._pc)})
         if s._undecided: return
         if isinstance(g, Opq) and g.k and g.k[0] == 'cmp' and isinstance(g.k[2], Poly):
             op, d = g.k[1], g.k[2]
@@ -345,9 +351,9 @@ class Evaluator:
                    ('Eq', True): '==0', ('Eq', False): '!=0', ('NotEq', True): '!=0', ('NotEq', False): '==0'}[(op, polarity)]
             s.add_fact(d, rel)
         elif isinstance(g, Opq) and g.k and g.k[0] == 'or' and polarity is False:
-            for x in g.k[1:]: s.learn(x, False)
+            for x in g.k[1:]: s.learn(x, False, exc, False)
         elif isinstance(g, Opq) and g.k and g.k[0] == 'and' and polarity is True:
-            for x in g.k[1:]: s.learn(x, True)
+            for x in g.k[1:]: s.learn(x, True, exc, False)
 
     # ------------------------------------------------------------------ facts / signs
     def add_fact(s, p: Poly, rel: str):
@@ -1122,18 +1128,21 @@ class Evaluator:
                 if g is True: return s.block(st.body + rest, env, mod, depth)
                 if g is False: return s.block(st.orelse + rest, env, mod, depth)
                 if _always_raises(st.body):
-                    s.learn(g, False)
+                    s.learn(g, False, _exc_name(st.body[-1]))
                     return s.block(st.orelse + rest, env, mod, depth)
                 if st.orelse and _always_raises(st.orelse):
-                    s.learn(g, True)
+                    s.learn(g, True, _exc_name(st.orelse[-1]))
                     return s.block(st.body + rest, env, mod, depth)
                 e1, e2 = _fork(env), _fork(env)
                 st0 = dict(s.stores)
                 s._undecided += 1
                 try:
+                    s._pc.append((g, True))
                     r1 = s.block(st.body + rest, e1, mod, depth)
+                    s._pc[-1] = (g, False)
                     st1 = s.stores; s.stores = dict(st0)
                     r2 = s.block(st.orelse + rest, e2, mod, depth)
+                    s._pc.pop()
                     st2 = s.stores
                 finally:
                     s._undecided -= 1
@@ -1287,6 +1296,13 @@ class _Fall:
 
 
 FALL = None   # a block that falls off its end returns None in Python
+
+
+def _exc_name(r):
+    e = r.exc
+    if e is None: return 're-raise'
+    if isinstance(e, ast.Call): e = e.func
+    return ast.unparse(e).split('.')[-1]
 
 
 def _always_raises(stmts):
